@@ -23,7 +23,7 @@ type verifC14State struct{ N int64 }
 func verifC14CallTokenMethod(method string) string {
 	h := NewHttpServer(NewServer())
 	h.SetCallStateCacheEntries(0)
-	tok, err := h.packCallTokenFor(method, "00", nil, nil, "s")
+	tok, err := h.packCallTokenFor(method, "00", nil, nil, nil, "s")
 	if err != nil {
 		return "?"
 	}
@@ -38,7 +38,7 @@ func verifC14CallTokenMethod(method string) string {
 // packCallTokenFor stores must name the method too.
 func verifC14CachedMethod(method string) string {
 	h := NewHttpServer(NewServer())
-	if _, err := h.packCallTokenFor(method, "00", nil, nil, "s"); err != nil {
+	if _, err := h.packCallTokenFor(method, "00", nil, nil, nil, "s"); err != nil {
 		return "?"
 	}
 	call := h.callStates.get("00", nil)
